@@ -998,7 +998,8 @@ def run(ctx):
            "reset_replies_after_heal": 0, "histories_with_reset_reply": 0, "entry_batches_after_heal": 0,
            "elections_after_heal_histories": 0, "dumpfile_histories": 0, "auto_compaction_histories": 0,
            "small_batch_histories": 0, "fallback_le_2s_histories": 0, "fault_events": 0, "submissions": 0,
-           "compactions": 0, "corpus_histories": 0, "planned": len(ps), "errors": 0}
+           "compactions": 0, "corpus_histories": 0, "planned": len(ps), "errors": 0,
+           "violating_histories": {}}
     distinct = set()
     viols, sigs = [], set()
     errors = []
@@ -1048,6 +1049,7 @@ def run(ctx):
         cov["compactions"] += c["compactions"]
         cov["corpus_histories"] += 1 if p.get("corpus") else 0
         for v in r["viol"]:
+            _inc(cov["violating_histories"], v["signature"])
             if v["signature"] in sigs or len(viols) >= 5:
                 continue
             sigs.add(v["signature"])
